@@ -47,7 +47,7 @@ def cases(draw):
     pad = draw(st.sampled_from(['', '', '', ' ', '  ', '\t', ' \r']))
     lead = draw(st.sampled_from(['', '', '', ' ', '\t']))
     spell = [draw(st.sampled_from(['0x', '0x', '0x', 'echo', 'reverse', 'bech32dec'])) for _ in stack]
-    aslines = draw(st.sampled_from([None, None, '\n', ' \n', '\r\n', ' ']))
+    aslines = draw(st.sampled_from([None, None, '\n', ' \n', '\r\n', ' ', ' # note\n', ' # a [ bracket and OP_1 in a comment\n', '#x\r\n']))
     return dict(script=script, stack=stack, removed=removed, mode=mode, opt=opt, dbg=dbg, envs=envs, pad=pad, lead=lead, spell=spell, aslines=aslines)
 
 
@@ -99,7 +99,7 @@ def invoke(c, mode=None, opt=None, variant='plain'):
             pos = nxt
         if toks:
             sep = c['aslines']
-            text = '[' + sep[1:] + sep.join(toks) + sep + ']'
+            text = '[' + (sep[1:] if sep[0] in ' \n\r\t' else sep) + sep.join(toks) + sep + ']'
     args = []
     env = {}
     if opt == 1:
